@@ -299,6 +299,128 @@ def flat_seqs_rep() -> list[tuple]:
     return out
 
 
+# ---------------------------------------------------------------------------------------------
+# dp-shapes: repeating / non-repeating choices and sequences whose branches are small nested groups, the same name
+# in two branches at different positions; selected so that every case of distinguishable_paths is exercised
+
+class _N:
+    """generator-level particle with the interface dp_key reads"""
+    def __init__(self, ast: tuple):
+        self.ast = ast
+        self.min_occurs, self.max_occurs = ast[2], ast[3]
+        self.model = ast[1] if ast[0] == 'g' else None
+        self.name = ast[1] if ast[0] != 'g' else None
+        self.items = [_N(i) for i in ast[4]] if ast[0] == 'g' else []
+
+    def __iter__(self):
+        return iter(self.items)
+
+    def is_univocal(self) -> bool:
+        return self.min_occurs == self.max_occurs
+
+    def is_emptiable(self) -> bool:
+        if self.min_occurs == 0 or self.model is None:
+            return self.min_occurs == 0
+        if not self.items:
+            return True
+        if self.model == 'choice':
+            return any(i.is_emptiable() for i in self.items)
+        return all(i.is_emptiable() for i in self.items)
+
+
+def predict_dp_keys(ast: tuple) -> list[str]:
+    """the dp_key of every distinguishable_paths call the (patched) check_model is expected to make on a model
+    of plain element references (overlap = same name), up to the first error; used to SELECT models only"""
+    root = _N(ast)
+    if root.max_occurs == 0:
+        return []
+    keys: list[str] = []
+    paths: dict = {}
+
+    def visit(g: _N, path: list) -> bool:
+        for it in g.items:
+            if it.max_occurs == 0:
+                continue
+            if it.model is not None:
+                if not visit(it, path + [it]):
+                    return False
+                continue
+            prev = paths.get(it.name)
+            if prev is not None:
+                pe, pp = prev
+                same = len(pp) == len(path) and all(x is y for x, y in zip(pp, path))
+                go = True
+                if same:
+                    if path[-1].model in ('all', 'choice'):
+                        return False
+                    if pe.is_univocal() and path[-1].max_occurs == 1:
+                        go = False
+                if go:
+                    k = dp_key(pp + [pe], path + [it])
+                    if k is not None:
+                        keys.append(k)
+            paths[it.name] = (it, path)
+        return True
+    visit(root, [root])
+    return keys
+
+
+def dp_shape(rng) -> tuple:
+    locc = [(1, 1), (1, 1), (0, 1), (2, 2), (1, 2), (0, None)]
+    gocc = [(1, 1), (1, 1), (0, 1), (2, 2), (1, 2), (0, None)]
+    others = ['b', 'c', 'd']
+
+    def leaf() -> list:
+        lo, hi = rng.choice(locc)
+        return ['e', rng.choice(others), lo, hi]
+
+    def group(d: int) -> list:
+        lo, hi = rng.choice(gocc)
+        items = []
+        for _ in range(rng.choice([1, 2, 2, 3])):
+            items.append(group(d - 1) if d > 1 and rng.random() < 0.35 else leaf())
+        return ['g', rng.choice(['sequence', 'choice']), lo, hi, items]
+
+    def leaves_of(x: list) -> list:
+        return [x] if x[0] == 'e' else [l for i in x[4] for l in leaves_of(i)]
+    branches = []
+    for _ in range(rng.choice([2, 2, 3])):
+        r = rng.random()
+        branches.append(leaf() if r < 0.25 else group(1 if r < 0.65 else 2))
+    i, j = rng.sample(range(len(branches)), 2)
+    for b in (branches[i], branches[j]):
+        rng.choice(leaves_of(b))[1] = 'a'
+    lo, hi = rng.choice([(1, 1), (0, 1), (0, None), (0, None), (1, 2), (2, 2), (1, None)])
+    root = ['g', rng.choice(['sequence', 'choice', 'choice']), lo, hi, branches]
+    if rng.random() < 0.2:      # the common group one level down
+        lo, hi = rng.choice(gocc)
+        root = ['g', rng.choice(['sequence', 'choice']), lo, hi, [leaf(), root] if rng.random() < 0.5 else [root]]
+
+    def tupl(x: list) -> tuple:
+        return ('e', x[1], x[2], x[3]) if x[0] == 'e' else ('g', x[1], x[2], x[3], [tupl(i) for i in x[4]])
+    return tupl(root)
+
+
+def dp_shapes(rng, per_key: int, pool: int) -> tuple[list[tuple], dict]:
+    """draws `pool` candidates and keeps a model while one of the distinguishable_paths cases it is predicted to
+    reach has fewer than `per_key` models; returns the selection and the predicted count per case"""
+    counts: dict[str, int] = {}
+    out, seen = [], set()
+    for _ in range(pool):
+        m = dp_shape(rng)
+        ks = set(predict_dp_keys(m))
+        if not ks or all(counts.get(k, 0) >= per_key for k in ks):
+            continue
+        s = show(m)
+        if s in seen:
+            continue
+        seen.add(s)
+        out.append(m)
+        for k in ks:
+            counts[k] = counts.get(k, 0) + 1
+    return out, counts
+
+
 def token_model(rng) -> tuple:
     """XSD 1.1: a small model with at least one wildcard whose notQName has ##defined / ##definedSibling"""
     while True:
@@ -380,6 +502,55 @@ def wildcard_models(v11: bool, tokens: bool = True) -> list[tuple]:
 class Recorder:
     def __init__(self) -> None:
         self.calls: dict[int, list[tuple[int, int, bool]]] = {}
+        self.flags: dict[int, list[str]] = {}      # per root group: dp_key of every distinguishable_paths call
+
+
+def dp_key(path1: list, path2: list) -> Optional[str]:
+    """The case of `distinguishable_paths` a call falls into, as a short key: model kind of the deepest common
+    group (S sequence / C choice or all), its maxOccurs (1 / *), before1 before2, after1 after2, univocal1
+    univocal2, is_univocal of the two leaves, depth of the common group (0 / 1 = deeper).  Re-computed from the
+    arguments with the particle interface only (model, max_occurs, iteration, is_emptiable, is_univocal), for the
+    real objects (coverage measured on the recorded calls) and for the generator-level nodes `_N` (selection of the
+    dp-shapes family).  It is NOT used for any verdict.  None = one of the early returns."""
+    depth = 0
+    for k, e in enumerate(path1):
+        if not any(e is x for x in path2):
+            if not k:
+                return None
+            depth = k - 1
+            break
+    g = path1[depth]
+    if g.max_occurs == 0:
+        return None
+    seq = g.model == 'sequence'
+    u1 = u2 = True
+    if seq:
+        items = list(g)
+        idx1 = next(i for i, x in enumerate(items) if x is path1[depth + 1])
+        idx2 = next(i for i, x in enumerate(items) if x is path2[depth + 1])
+        b1 = any(not e.is_emptiable() for e in items[:idx1])
+        a1 = b2 = any(not e.is_emptiable() for e in items[idx1 + 1:idx2])
+        a2 = any(not e.is_emptiable() for e in items[idx2 + 1:])
+    else:
+        b1 = a1 = b2 = a2 = False
+
+    def walk(path, u, b, a):
+        for k in range(depth + 1, len(path) - 1):
+            u = u and path[k].is_univocal()
+            its = list(path[k])
+            idx = next(i for i, x in enumerate(its) if x is path[k + 1])
+            if path[k].model == 'sequence':
+                b = b or any(not e.is_emptiable() for e in its[:idx])
+                a = a or any(not e.is_emptiable() for e in its[idx + 1:])
+            elif any(e.is_emptiable() for i, e in enumerate(its) if i != idx):
+                u = False
+        return u, b, a
+    u1, b1, a1 = walk(path1, u1, b1, a1)
+    u2, b2, a2 = walk(path2, u2, b2, a2)
+    f = lambda x: '1' if x else '0'      # noqa: E731
+    return '%s%s b%s%s a%s%s u%s%s l%s%s d%d' % ('S' if seq else 'C', '1' if g.max_occurs == 1 else '*', f(b1), f(b2),
+                                              f(a1), f(a2), f(u1), f(u2), f(path1[-1].is_univocal()),
+                                              f(path2[-1].is_univocal()), min(depth, 1))
 
 
 @contextlib.contextmanager
@@ -393,6 +564,12 @@ def recording() -> Iterator[Recorder]:
     def wrapper(path1, path2):
         r = orig(path1, path2)
         rec.calls.setdefault(id(path1[0]), []).append((id(path1[-1]), id(path2[-1]), bool(r)))
+        try:
+            k = dp_key(path1, path2)
+        except Exception:       # noqa: BLE001 - statistics only
+            k = 'error'
+        if k is not None:
+            rec.flags.setdefault(id(path1[0]), []).append(k)
         return r
     models.distinguishable_paths = wrapper
     try:
